@@ -881,6 +881,8 @@ class TT():
         if not self.__is_ttm or other.is_ttm:
             raise IncompatibleTypes(
                 'First operand should be a TT matrix and second a TT vector.')
+        if self.__N != other.N:
+            raise ShapeMismatch('Shapes are incompatible.')
 
         return dmrg_matvec(self, other, y0=initial, eps=eps, verb=verb, nswp=nswp, use_cpp=use_cpp)
 
